@@ -37,13 +37,20 @@ def run_family(ck, fname, scs, propfn, keyprefix, what, hyp=False):
         bad_ack = [i for i, h in enumerate(hyps) if h % 8 < 4]
         bad_keys = [i for i, h in enumerate(hyps) if h % 16 < 8]     # bit 3: every (market, name) used once by the script, names < 1000 (names theorem, C13)
         hd = {"in_theorem_domain": sum(1 for h in hyps if h % 4 >= 2), "in_domain_and_guard_holds": sum(1 for h in hyps if h % 4 == 3),
-              "guard_holds_any": sum(1 for h in hyps if h % 2 == 1), "ack_guard_holds": len(hyps) - len(bad_ack), "names_used_once": len(hyps) - len(bad_keys), "static_domain": sum(1 for h in hyps if h >= 16 and h % 16 >= 8)}
+              "guard_holds_any": sum(1 for h in hyps if h % 2 == 1), "ack_guard_holds": len(hyps) - len(bad_ack), "names_used_once": len(hyps) - len(bad_keys), "static_domain": sum(1 for h in hyps if (h >> 4) & 1 and (h >> 3) & 1),
+              "lifecycle_theorem_domain": sum(1 for h in hyps if (h >> 3) & 1 and (h >> 4) & 1 and (h >> 5) & 1), "lifecycle_conclusion_holds_on_model": sum(1 for h in hyps if (h >> 6) & 1)}
         # bit 4: static side conditions (configuration, initial state, books with bet delays).  With bit 3 they imply bits 0 and 2 by theorem
         # (guards_hold): an evaluation that contradicts this means the model or the evaluation is broken
-        contra = [i for i, h in enumerate(hyps) if h >= 16 and h % 16 >= 8 and (h % 2 == 0 or h % 8 < 4)]
+        contra = [i for i, h in enumerate(hyps) if (h >> 4) & 1 and (h >> 3) & 1 and (h % 2 == 0 or h % 8 < 4)]
         if contra:
             ck.broken.append({"kind": "hypothesis", "what": "static side conditions hold but a guard evaluates to false (contradicts guards_hold) in family " + fname,
                               "first": contra[:3], "scenarios": [{"index": i, "scenario": scs[i]} for i in contra[:2]]})
+        # bits 3, 4, 5 (names once, static domain, positive sizes) make bit 6 (every status log a lifecycle path, one package per order) a theorem
+        # (C03_sim_run_lifecycle_legal, C03_sim_run_one_operation_outstanding)
+        contra2 = [i for i, h in enumerate(hyps) if (h >> 3) & 1 and (h >> 4) & 1 and (h >> 5) & 1 and not (h >> 6) & 1]
+        if contra2:
+            ck.broken.append({"kind": "hypothesis", "what": "the hypotheses of C03_sim_run_lifecycle_legal hold but its conclusion evaluates to false on the model in family " + fname,
+                              "first": contra2[:3], "scenarios": [{"index": i, "scenario": scs[i]} for i in contra2[:2]]})
         hd_keys = len(hyps) - len(bad_keys)
         if bad_keys:
             ck.broken.append({"kind": "hypothesis", "what": "keys_ok_b (hypothesis of C13_order_names_unique_in_every_reachable_state) is false on scenario(s) of family " + fname,
